@@ -128,8 +128,9 @@ func runB(c caseB) error {
 			continue
 		}
 		if c.Versioning != "" && c.Delimiter != "" && p.Kind == "deleted" && belowDirObject(p.Key, c.Dirs) {
-			// (the delete marker is a file in the directory of that directory object: "a directory object with
-			// children is only ever a prefix under a delimiter" - the mapping's stated restriction, see valid())
+			// (the delete marker is a file in the directory of that directory object: the open finding "a directory
+			// object with keys below it is not listed under a delimiter" would show for a key set in which nothing is
+			// below it - kept apart from the shape that finding is recognised by, see checkChain)
 			continue
 		}
 		path := "/" + bkt + "/" + p.Key
@@ -327,6 +328,10 @@ func TestC07B(t *testing.T) {
 		if err := runB(c); err != nil {
 			if strings.HasPrefix(err.Error(), "SETUP") {
 				t.Skip(err.Error())
+			}
+			if id := known(err); id != "" {
+				ev.Known(id)
+				return
 			}
 			ev.Failf(t, "C07B", "%v", err)
 		}
